@@ -92,6 +92,8 @@ func build(w world) ech.ResolveResult {
 	if a := addlDomain[w.Addl]; len(a) > 0 {
 		for _, ip := range a {
 			r.Additional["t1"] = append(r.Additional["t1"], append(net.IP{}, ip...))
+			// a target name as the wire spelled it (mixed case): the map is keyed by that very spelling
+			r.Additional["Up.T3"] = append(r.Additional["Up.T3"], append(net.IP{}, ip...))
 		}
 	}
 	r.HTTPS = make([]dns.HTTPS, 0, len(w.Recs)+1)
@@ -253,13 +255,22 @@ func collect(r ech.ResolveResult, network string, stop int) (got []tgt, callsAft
 
 func collectSeq(seq func(func(ech.Target) bool), stop int) (got []tgt, callsAfterStop int) {
 	stopped := false
+	// the targets are kept as yielded and only looked at after the enumeration has ended (a caller that collects them, as
+	// Dial does, must find each one as it was yielded: later records must not change earlier targets)
+	var kept []ech.Target
+	defer func() {
+		got = nil
+		for _, t := range kept {
+			got = append(got, tgt{t.Address.String(), fmt.Sprintf("%x", t.ECH), alpnSet(t.ALPN)})
+		}
+	}()
 	seq(func(t ech.Target) bool {
+		kept = append(kept, t)
 		if stopped {
 			callsAfterStop++
 			return false
 		}
-		got = append(got, tgt{t.Address.String(), fmt.Sprintf("%x", t.ECH), alpnSet(t.ALPN)})
-		if stop >= 0 && len(got) >= stop+1 {
+		if stop >= 0 && len(kept) >= stop+1 {
 			stopped = true
 			return false
 		}
@@ -358,7 +369,7 @@ func evalWorld(r *ev.Run, w world) {
 }
 
 func Run(r *ev.Run) {
-	r.Rule("E1 exhaustive: all ResolveResults with 1 HTTPS record over the full per-record domain (priority{0,1,2} x target{'',t1,t2} x port{0,8443,80} x hints{none,v4,v6,both} x ECH{nil,e1} x 6 ALPN shapes incl. spare capacity), and with 0, 2 and 3 records over a reduced per-record domain, x 5 Address lists x 3 Additional maps x Port{80,443,8443} x 6 networks x early termination after {never,0,1,2} yields, plus a family with 16-byte IPv4-mapped addresses next to their 4-byte twins; each enumerated by two fresh calls and twice over one kept sequence value, compared with a reference function, with a byte-level snapshot (incl. spare capacity) before/after. distinct = distinct worlds yielding >=1 target")
+	r.Rule("E1 exhaustive: all ResolveResults with 1 HTTPS record over the full per-record domain (priority{0,1,2} x target{'',t1,t2} x port{0,8443,80} x hints{none,v4,v6,both} x ECH{nil,e1} x 6 ALPN shapes incl. spare capacity), and with 0, 2 and 3 records over a reduced per-record domain, x 5 Address lists x 3 Additional maps x Port{80,443,8443} x 6 networks x early termination after {never,0,1,2} yields, plus a family with 16-byte IPv4-mapped addresses next to their 4-byte twins and one with a mixed-case target name; targets are retained and compared after the enumeration has ended; each enumerated by two fresh calls and twice over one kept sequence value, compared with a reference function, with a byte-level snapshot (incl. spare capacity) before/after. distinct = distinct worlds yielding >=1 target")
 	r.Assume("reference function in checks/c15 written from the property text and RFC 9460 is correct",
 		"ALPN compared as a set; a record whose target has no known address may contribute nothing or its hints (the property leaves that open)",
 		"addresses are 4-byte IPv4 or 16-byte IPv6; a 16-byte IPv4-mapped value counts as IPv6 (it is what an AAAA record carried) and is distinct from its 4-byte twin")
@@ -456,6 +467,19 @@ func Run(r *ev.Run) {
 		return world{Recs: []recSpec{{1 + d[0], targets[d[1]], 0, 0, d[2], 1}}, Addr: plainAddrDomain + d[3], Addl: []int{3, 2}[d[4]], Port: ports[d[5]], Network: networks[d[6]], Stop: stops[d[7]]}
 	})
 	sizes = append(sizes, pm.Size())
+
+	// family U: a target name with upper-case letters (Additional is keyed by the spelling found on the wire), alone and
+	// next to a record for the origin
+	pu := enum.Product{2, 2, 2, plainAddrDomain, 2, len(ports), 3, 2}
+	worlds = append(worlds, func(i int) world {
+		d := pu.Decode(i)
+		w := world{Recs: []recSpec{{1, "Up.T3", []int{0, 8443}[d[0]], d[1] * 3, 1, 1 + d[2]*2}}, Addr: d[3], Addl: []int{0, 2}[d[4]], Port: ports[d[5]], Network: []string{"tcp", "tcp4", "udp6"}[d[6]], Stop: -1}
+		if d[7] == 1 {
+			w.Recs = append(w.Recs, recSpec{2, "", 0, 0, 2, 3})
+		}
+		return w
+	})
+	sizes = append(sizes, pu.Size())
 
 	for f := range worlds {
 		f := f
